@@ -14,8 +14,9 @@ m=json.load(open('$SRC/meta.json'))
 c=m.get('demo_cmd','')
 mm=re.search(r'\./(\w+)/?', c)
 print(mm.group(1) if mm else 'vm')")
-echo "== demo file: $demo -> package dir $pkgdir"
-run_demo() { if [ -n "$demo" ]; then cp $demo $WT/$pkgdir/zz_seed_demo_test.go; (cd $WT && timeout 600 go test -vet=off -count=1 -run 'Seed|Demo' ./$pkgdir/ 2>&1 | tail -15); rc=${PIPESTATUS[0]}; rm -f $WT/$pkgdir/zz_seed_demo_test.go; fi; }
+tests=$(grep -ohE "^func (Test[A-Za-z0-9_]+)" $demo | sed 's/func //' | paste -sd'|')
+echo "== demo file: $demo -> package dir $pkgdir tests: $tests"
+run_demo() { if [ -n "$demo" ]; then cp $demo $WT/$pkgdir/zz_seed_demo_test.go; (cd $WT && timeout 600 go test -vet=off -count=1 -run "$tests" ./$pkgdir/ 2>&1 | tail -15); rc=${PIPESTATUS[0]}; rm -f $WT/$pkgdir/zz_seed_demo_test.go; fi; }
 echo "== clean tree demo (must pass)"; run_demo
 git apply $SRC/patch.diff || { echo "patch does not apply"; exit 2; }
 echo "== build + existing suite with patch"; go build ./... && go test -vet=off -count=1 ./... 2>&1 | tail -12
